@@ -144,6 +144,42 @@ def run(fx, rep):
         cs = [(bi, t) for bi, t in x.calls() if F.norm_callee(t) == meth]
         okk = len(cs) == 1 and all(y == ('f', ('param', 1), 'functions') for y in xpv.of_operand(cs[0][1]['args'][0])) and all(y == ('param', 2) for y in xpv.of_operand(cs[0][1]['args'][1]))
         rep.check(okk, 'R3', 'registry-%s/by-name' % nm, x.loc(), 'functions.%s(name)' % meth.rsplit('::', 1)[-1], 'FunctionRegistry::%s does not look the given name up' % nm)
+    # ---------------- R6 conversion table of FromValue (argument -> declared parameter type)
+    rep.rule('R6', 'FromValue: each parameter type accepts exactly its own Value variant (Option<T> additionally Null -> None); anything else is UnexpectedType')
+    kinds = {'bool': 'Bool', 'i64': 'Int', 'u64': 'UInt', 'f64': 'Float', 'std::sync::Arc<std::string::String>': 'String', 'std::sync::Arc<std::vec::Vec<u8>>': 'Bytes',
+             'std::sync::Arc<std::vec::Vec<cel_interpreter::objects::Value>>': 'List', 'chrono::TimeDelta': 'Duration', 'chrono::DateTime<chrono::FixedOffset>': 'Timestamp'}
+    fvs = [x for x in fx.bodies.values() if x.raw.get('impl_trait') == MAGIC + 'FromValue' and x.raw['kind'] == 'AssocFn']
+    for x in sorted(fvs, key=lambda y: y.raw.get('impl_self', '')):
+        st = x.raw.get('impl_self', '')
+        rep.analysed(x)
+        xpv = F.Prov(x)
+        rets = {F.term_str(t) for _, ts in xpv.per_def(0) for t in ts}
+        errs = {r for r in rets if r.startswith('Err{UnexpectedType{')}
+        oks = rets - errs
+        mm = re.match(r'^std::option::Option<(.*)>$', st)
+        inner = mm.group(1) if mm else st
+        if st == 'cel_interpreter::objects::Value':
+            okk = rets == {'Ok{arg1}'}
+            want = 'Ok{arg1}'
+        elif inner in kinds:
+            v = kinds[inner]
+            want = {'Ok{Some{(arg1 as %s).0}}' % v, 'Ok{None{}}'} if mm else {'Ok{(arg1 as %s).0}' % v}
+            okk = oks == want and len(errs) == 1
+            if okk and mm:
+                # None only for Value::Null
+                vn = {vv['idx']: vv['name'] for vv in fx.adt('cel_interpreter::objects::Value')['variants']}
+                sw = x.blocks[0]['term']
+                none_blocks = [bi for bi, j, s_ in x.stmts() if s_['k'] == 'Assign' and s_['rv']['k'] == 'Aggregate' and s_['rv'].get('variant') == 'None']
+                okk = sw['k'] == 'SwitchInt' and bool(none_blocks)
+                if okk:
+                    null_t = [tg for val, tg in sw['arms'] if vn.get(int(val)) == 'Null']
+                    okk = len(null_t) == 1 and all(x.dominates(null_t[0], nb) or nb == null_t[0] for nb in none_blocks)
+        else:
+            okk = False
+            want = 'a known parameter type'
+        rep.check(okk, 'R6', 'FromValue/%s' % re.sub(r'(\w+::)+', '', st)[:50], x.loc(), ' | '.join(sorted(oks)),
+                  'FromValue for %s returns %s (errors: %d): a wrongly typed argument must be UnexpectedType, never converted/defaulted (expected %s)' % (st, sorted(oks), len(errs), want))
+    rep.floor('R6', 15 if 'chrono' not in fx.features('cel_interpreter') else 19)
     # ---------------- R4
     ad = [x for x in fx.bodies.values() if re.match(r'^<F as cel_interpreter::magic::IntoFunction<\(.*\)>>::into_function$', x.path)]
     shapes = set()
@@ -179,7 +215,7 @@ def run(fx, rep):
         f = dict(zip(agg[0]['rv']['fields'], agg[0]['rv']['ops']))
         okk = all(npv.of_operand(f[k]) == {('param', i)} for k, i in (('name', 1), ('this', 2), ('ptx', 3), ('args', 4))) and F.op_const(f['arg_idx']) == 0
     rep.check(okk, 'R5', 'FunctionContext::new/fields', nb.loc(), 'name, this, ptx, args stored as given; arg_idx = 0', 'FunctionContext::new does not store its parameters as given with a zero cursor')
-    rep.floor('R1', 20)
+    rep.floor('R1', 14 if 'chrono' not in feats else 20)
     rep.floor('R2', 3)
     rep.floor('R3', 6)
 
